@@ -243,6 +243,7 @@ static void scn_init(void)
 	if (vx_lib_bsz()) vs_region(__start_vxlibbss, vx_lib_bsz(), VS_SHARED, "unit-statics");
 	vs_region(&G, sizeof(G), VS_GHOST, "ghost");
 	for (int i = 0; i < C6.prefill_aq % 10; i++) G.ra[i == 0 && C6.prefill_aq >= 10 ? F_Z : F_Y]++;
+	G.evnext = (uint8_t)(C6.evq_adv % C6.evq_depth);
 	vs_plain_write_hook = on_plain_write;
 }
 static void scn_end(void)
@@ -266,7 +267,8 @@ static void build(const c06_cfg *c)
 	for (int i = 0; i < c->passes; i++) n += snprintf(sname + n, sizeof(sname) - (size_t)n, "%d", c->main_act[i]);
 	n += snprintf(sname + n, sizeof(sname) - (size_t)n, "-h");
 	for (int i = 0; i < c->nh; i++) n += snprintf(sname + n, sizeof(sname) - (size_t)n, "%d", c->hk[i]);
-	snprintf(sname + n, sizeof(sname) - (size_t)n, "-n%d-t%d-b%d-q%d-a%d-f%d-k%d", c->nest, c->threads, c->bound, c->evq_depth, c->prefill_aq, c->fine, c->zkick);
+	n += snprintf(sname + n, sizeof(sname) - (size_t)n, "-n%d-t%d-b%d-q%d-a%d-f%d-k%d", c->nest, c->threads, c->bound, c->evq_depth, c->prefill_aq, c->fine, c->zkick);
+	if (c->evq_adv) snprintf(sname + n, sizeof(sname) - (size_t)n, "-e%d", c->evq_adv);
 	S.name = sname; S.init = scn_init; S.at_end = scn_end; S.horizon = 20000; S.max_nesting = c->nest;
 	S.nthreads = 1; S.thread_fn[0] = c6_main;
 	if (c->threads) { for (int i = 0; i < c->nh; i++) { S.thread_fn[S.nthreads] = c6_thread_irq; S.thread_arg[S.nthreads++] = (void *)(intptr_t)i; } }
@@ -281,6 +283,7 @@ static int parse(const char *sn, c06_cfg *c)
 		if (sscanf(sn, "p%d-s%d-y%d-z%d-m%15[0-9]-h-n%d-t%d-b%d-q%d-a%d-f%d-k%d", &c->passes, &c->start_mask, &c->ny, &c->zdelta, m, &c->nest, &c->threads, &c->bound, &c->evq_depth, &c->prefill_aq, &c->fine, &c->zkick) != 12) return 0;
 		h[0] = 0;
 	}
+	{ const char *e = strstr(sn, "-e"); if (e) c->evq_adv = atoi(e + 2); }
 	for (int i = 0; m[i]; i++) c->main_act[i] = m[i] - '0';
 	c->nh = (int)strlen(h); for (int i = 0; h[i]; i++) c->hk[i] = h[i] - '0';
 	return 1;
@@ -360,6 +363,12 @@ static void enumerate(void)
 		  t.hk[0] = HK_RA_Z; t.hk[1] = HK_RA_Y; t.prefill_aq = 8; t.evq_depth = 2; cfgs[ncfg++] = t;
 		  t.hk[0] = HK_EV1; t.hk[1] = HK_EV2; t.prefill_aq = 8; cfgs[ncfg++] = t;
 		  t.hk[0] = HK_EV1; t.hk[1] = HK_EV2; t.prefill_aq = 0; t.evq_depth = 1; cfgs[ncfg++] = t; }
+		/* an event queue three deep (a depth that does not divide 256) whose cursors have been round 254 / 255 / 256 times
+		 * before two events arrive: a cursor kept as a free-running 8-bit count shows here (seeded/C06-r5) */
+		for (int adv = 254; adv <= 256; adv++) {
+			c06_cfg t = c; t.nh = 2; t.nest = 2; t.threads = 0; t.bound = -1; t.prefill_aq = 0; t.evq_depth = 3; t.evq_adv = adv;
+			t.hk[0] = HK_EV1; t.hk[1] = HK_EV2; cfgs[ncfg++] = t;
+		}
 		c.nh = 1; c.nest = 1;
 		c.hk[0] = HK_EV1; c.prefill_aq = 8; cfgs[ncfg++] = c;
 		c.hk[0] = HK_RA_Z; c.prefill_aq = 8; cfgs[ncfg++] = c;
